@@ -6,7 +6,6 @@ REG = dict(
     note='ASCII programs; one-letter names; no break/continue/return (C06 owns variables outliving a block that is left early) and no read of a top-level-block binding after its block (the interpreter splices top-level blocks). Function bodies have no free local variables. Rename of functions/types/methods is only counted.',
     design_ref='DESIGN.md §6 C19',
 )
-REG = REG_DRAFT
 
 
 import itertools
